@@ -110,6 +110,8 @@ def run_history(ops):
                                     hash(c2)
                                 except Exception as e:
                                     fail = f'frozen copy(skip_checks=True, **{kw}) cannot be hashed: {type(e).__name__}'
+                if fail is None and CLASSES[type(src).__name__] in ('Message', 'MetaMessage'):
+                    fail = _equal_valued_twins(mido, src, kw)
             elif k == 'freeze':
                 src = None if op[1] is None else pool[op[1]]
                 f = freeze_message(src)
@@ -166,6 +168,8 @@ def run_history(ops):
                             fail = f'equal frozen messages {o!r} and {other!r} have different hashes'
                     if {o: 1}[o] != 1:
                         fail = 'frozen message does not work as a dictionary key'
+                    if fail is None and is_frozen(o):
+                        fail = _provenance_twins(mido, o, hv)
             elif k == 'eq':
                 out = 'true' if pool[op[1]] == pool[op[2]] else 'false'
         except _OutOfDomain:
@@ -189,6 +193,87 @@ def run_history(ops):
         lines.append(out)
         lines.append(' | '.join(obj_tok(o) for o in pool))
     return lines, fail
+
+
+def _equal_valued_twins(mido, src, kw):
+    """After a copy that was accepted (its values, and those the message holds, have been validated as ints): the same
+    values as float / Fraction are accepted by copy() exactly when a fresh construction accepts them."""
+    from fractions import Fraction
+    base = {'Message': mido.Message, 'MetaMessage': mido.MetaMessage}[CLASSES[type(src).__name__]]
+    held = {n: v for n, v in vars(src).items() if n not in ('type', 'time')}
+    held.update({n: v for n, v in kw.items() if n != 'type'})
+    for n, v in list(held.items())[:4]:
+        if type(v) is int:
+            twins = [float(v), Fraction(v)]
+        elif isinstance(v, (tuple, list)) and v and all(type(x) is int for x in v) and len(v) < 20:
+            twins = [tuple(float(x) for x in v)]
+        else:
+            continue
+        for tv in twins:
+            d = dict(vars(src))
+            d.update({k_: v_ for k_, v_ in kw.items()})
+            d[n] = tv
+            try:
+                base(**d)
+                fresh_ok = True
+            except Exception:
+                fresh_ok = False
+            try:
+                c3 = src.copy(**{n: tv})
+                copy_ok = True
+            except Exception:
+                copy_ok = False
+            if copy_ok and not fresh_ok:
+                return (f'after a copy that validated {n}={v!r}, copy({n}={tv!r}) is accepted and gives {c3!r} although a fresh '
+                        f'construction with that value is rejected')
+            if fresh_ok and not copy_ok:
+                return f'copy({n}={tv!r}) is rejected although a fresh construction with that value is accepted'
+    return None
+
+
+def _provenance_twins(mido, fo, hv):
+    """Equal messages that came into being in other ways (decoded from bytes, parsed from a stream or from text, rebuilt from
+    a dict, loaded from a file track): frozen, each one that equals `fo` must hash like it and find it in a dict."""
+    import io
+    from mido.frozen import freeze_message, thaw_message
+    base = thaw_message(fo)
+    fam = CLASSES[type(fo).__name__]
+    twins = []
+    try:
+        if fam == 'Message':
+            twins.append(('from_bytes', mido.Message.from_bytes(base.bytes(), time=base.time)))
+            twins.append(('from_dict', mido.Message.from_dict(base.dict())))
+            p = mido.parse(base.bytes())
+            if p is not None:
+                p.time = base.time
+                twins.append(('parse', p))
+            if isinstance(base.time, int) and base.type != 'sysex' or (isinstance(base.time, int) and len(base.data) < 50):
+                twins.append(('from_str', mido.Message.from_str(str(base))))
+        elif fam == 'MetaMessage':
+            tw = mido.MetaMessage.from_bytes(base.bytes())
+            tw.time = base.time
+            twins.append(('from_bytes', tw))
+            twins.append(('from_dict', mido.MetaMessage.from_dict(base.dict())))
+        if fam in ('Message', 'MetaMessage') and isinstance(base.time, int) and base.time >= 0 and not getattr(base, 'is_realtime', False):
+            mid = mido.MidiFile()
+            mid.tracks.append(mido.MidiTrack([base.copy()]))
+            buf = io.BytesIO()
+            mid.save(file=buf)
+            back = mido.MidiFile(file=io.BytesIO(buf.getvalue()))
+            twins.append(('loaded from a saved file', back.tracks[0][0]))
+    except Exception:
+        pass            # a message that cannot take one of these routes has no twin of that kind
+    for how, tw in twins:
+        try:
+            ft = freeze_message(tw)
+            if ft == fo:
+                if hash(ft) != hv:
+                    return f'the frozen message {fo!r} and an equal one obtained by {how} have different hashes'
+                if {fo: 1}.get(ft) != 1 or len({fo, ft}) != 1:
+                    return f'an equal frozen message obtained by {how} does not find {fo!r} in a dict / set'
+        except Exception as e:
+            return f'freezing / hashing an equal message obtained by {how} raised {type(e).__name__}: {e}'
+    return None
 
 
 def _chunk(hs):
